@@ -3,7 +3,7 @@
 # scratch copy of the repository and its own evidence directory)
 # usage: seed_matrix3.sh [round ...]   (default: all rounds + harmless)
 cd /verif
-rounds="${@:-seeded seeded3 seeded4 seeded5 seeded6 seeded7 seeded8 seeded9 seeded10 harmless}"
+rounds="${@:-seeded seeded3 seeded4 seeded5 seeded6 seeded7 seeded8 seeded9 seeded10 seeded11 harmless}"
 list=$(mktemp)
 for round in $rounds; do
   if [ "$round" = harmless ]; then
